@@ -67,6 +67,11 @@ deriving DecidableEq, Repr
 structure Params where
   addHold : Nat := 720 * 3600
   remHold : Nat := 2160 * 3600
+  /-- what the error branch after `readTombstones` does with an open error that
+  is neither NotExist nor a decode error: `true` = `tombstones = make(Tombstones)`
+  (the current tree), `false` = clear the trust set and abort like the corrupt
+  case (the fail-closed variant). Regenerated from the tree as a shape fact. -/
+  unreadableEmpty : Bool := true
 deriving DecidableEq, Repr
 
 inductive Write where
@@ -254,10 +259,10 @@ inductive TombRead where
   | corrupt
   | ok (ms : List Nat)
 
-/-- `readTombstones` and the error handling around it: an open error other
-than NotExist yields an EMPTY map (not fail-closed). -/
-def readTomb (d : Disk) (fl : Faults) : TombRead :=
-  if fl.tombRead then .ok [] else
+/-- `readTombstones` and the error handling around it: in the current tree an
+open error other than NotExist yields an EMPTY map (not fail-closed). -/
+def readTomb (P : Params) (d : Disk) (fl : Faults) : TombRead :=
+  if fl.tombRead then (if P.unreadableEmpty then .ok [] else .corrupt) else
   match d.tomb with
   | .absent => .ok []
   | .corrupt => .corrupt
@@ -299,7 +304,7 @@ def autoTA (P : Params) (cfg : List Key) (d : Disk) (live : List Key) (f : Optio
     (fl : Faults) (now : Nat) : Result :=
   let priorTrustValid := !live.isEmpty
   let cur0 := readState d live fl now
-  match readTomb d fl with
+  match readTomb P d fl with
   | .corrupt => { live := [], outcome := .perr }
   | .ok tomb0 =>
     let (cur, tomb) := prepare cfg cur0 tomb0 now
